@@ -1,5 +1,5 @@
 (* Model of protocols/gamespy: versions one, two and three (C04), after the
-   fixes b07ef39, 9a43a73, afe1d1f (one), c375acc (two), 2001a77, e9ad523 (three).
+   fixes b07ef39, 9a43a73, afe1d1f, 97f13c6 (one), c375acc (two), 2001a77, e9ad523, cd2e729 (three).
    HashMaps are association lists (insert replaces, iteration order is the
    order of first insertion; the code iterates a map only in
    extract_players, where the outcome is independent of the order unless two
@@ -70,7 +70,7 @@ Fixpoint insert_pairs (l : list bytes) (m : vmap) : vmap :=
   match l with k :: v :: r => insert_pairs r (vm_insert k v m) | _ => m end.
 
 Definition gs1_request : bytes := str "\status\xserverquery".
-Fixpoint gs1_loop (fuel : nat) (received : option N) (parts : list N) (vals : vmap) : M vmap :=
+Fixpoint gs1_loop (fuel : nat) (received : option N) (parts : list N) (expected : option N) (vals : vmap) : M vmap :=
   match fuel with
   | O => fun n => (OutOfFuel, n)
   | S f =>
@@ -100,13 +100,19 @@ Fixpoint gs1_loop (fuel : nat) (received : option N) (parts : list N) (vals : vm
               match idpart with
               | Ok (qid, part) =>
                   let vals := map_remove (str "queryid") vals in
-                  match received with
-                  | Some r0 => if match qid with Some q => negb (q =? r0) | None => true end then mfail PacketBad
-                               else if existsb (N.eqb part) parts then mfail PacketBad
-                               else if finished then mret vals else gs1_loop f qid (parts ++ [part]) vals
-                  | None => if existsb (N.eqb part) parts then mfail PacketBad
-                            else if finished then mret vals else gs1_loop f qid (parts ++ [part]) vals
-                  end
+                  let parts' := parts ++ [part] in
+                  (* the part carrying "final" tells how many parts there are *)
+                  let expected' := if finished
+                                   then Some (if (match qid with Some _ => true | None => false end) && (0 <? part) then part else lenN parts')
+                                   else expected in
+                  let done := match expected' with Some n => n <=? lenN parts' | None => false end in
+                  let wrong_id := match received with
+                                  | Some r0 => match qid with Some q => negb (q =? r0) | None => true end
+                                  | None => false
+                                  end in
+                  if wrong_id then mfail PacketBad
+                  else if existsb (N.eqb part) parts then mfail PacketBad
+                  else if done then mret vals else gs1_loop f qid parts' expected' vals
               | Err e => mfail e | Panic s => mpanic s | Abort s => fun n => (Abort s, n) | OutOfFuel => fun n => (OutOfFuel, n)
               end
           end
@@ -114,7 +120,7 @@ Fixpoint gs1_loop (fuel : nat) (received : option N) (parts : list N) (vals : vm
       end
   end.
 Definition gs1_values_impl (port : N) : M vmap := fun n =>
-  (do* _ := send port gs1_request in gs1_loop (S (length (n_udp n))) None [] []) n.
+  (do* _ := send port gs1_request in gs1_loop (S (length (n_udp n))) None [] None []) n.
 Definition gs1_query_vars (port : N) (t : option tsettings) : M vmap :=
   do* _ := udp_new port t in
   retry_on_timeout (ts_retries_or_default t) (gs1_values_impl port).
@@ -337,7 +343,7 @@ Fixpoint pad_to {A} (n : nat) (d : A) (l : list A) : list A :=
   | S n', x :: r => x :: pad_to n' d r
   | S n', [] => d :: pad_to n' d []
   end.
-Fixpoint gs3_packets_loop (fuel : nat) (values : list bytes) : M (list bytes) :=
+Fixpoint gs3_packets_loop (fuel : nat) (values : list bytes) (expected : option nat) : M (list bytes) :=
   match fuel with
   | O => fun n => (OutOfFuel, n)
   | S f =>
@@ -353,16 +359,22 @@ Fixpoint gs3_packets_loop (fuel : nat) (values : list bytes) : M (list bytes) :=
       | Ok (id, body) =>
           let is_last := 128 <=? id in
           let pid := N.to_nat (id mod 128) in
-          let reached := is_last && negb (Nat.eqb (pid + 1) (length values)) in
           let values' := set_nth pid (fun _ => body) [] (pad_to (pid + 1) [] values) in
-          if reached then mret values' else gs3_packets_loop f values'
+          (* the packet flagged as last tells how many packets there are *)
+          let expected' := if is_last then Some (pid + 1)%nat else expected in
+          let reached := match expected' with
+                         | Some n => (n <=? length values')%nat
+                                     && forallb (fun v => match v with [] => false | _ => true end) (firstn n values')
+                         | None => false
+                         end in
+          if reached then mret values' else gs3_packets_loop f values' expected'
       | Err e => mfail e | Panic s => mpanic s | Abort s => fun n => (Abort s, n) | OutOfFuel => fun n => (OutOfFuel, n)
       end
   end.
 Definition gs3_packets_impl (port : N) : M (list bytes) := fun n =>
   (do* c := gs3_handshake port in
    do* _ := gs3_data_request port [255; 255; 255; 1] c in
-   do* vs := gs3_packets_loop (S (length (n_udp n))) [] in
+   do* vs := gs3_packets_loop (S (length (n_udp n))) [] None in
    if existsb (fun v => match v with [] => true | _ => false end) vs then mfail PacketBad else mret vs) n.
 Definition gs3_packets (port : N) (t : option tsettings) : M (list bytes) :=
   do* _ := udp_new port t in
